@@ -4,7 +4,8 @@
     The model ([Reactive/Graph.v], [Effects.v]) transcribes MemoInner, the signal notification
     path, Track::track, untrack, derived signals and effects.  [run_fixed p ops] is the state
     after the history [ops] (set / notify / read / poll the k-th ready task / run to idle /
-    pause / resume / dispose — every schedule is some [ops]).
+    pause / resume / dispose of an effect / dispose of a signal or memo — every schedule is
+    some [ops]).
 
     Scope of the model: graphs whose nodes are declared up front (signals on both notification
     paths, memos with or without equality cut-off, derived signals, effects); conditional and
@@ -42,11 +43,14 @@ Print Assumptions C01_invariant_in_every_reachable_state.
     ("Current value" of a source memo built with a comparator coarser than equality
     (new_with_compare, [CPar]): a value that comparator does not tell from the memo's present
     value — the memo itself always holds what its function gives, its subscribers are by
-    design not told about a change its comparator ignores; [eqv].) *)
+    design not told about a change its comparator ignores; [eqv].  A source that has been
+    disposed since the last run ([dead]; history operation [ODropSrc]) owes nothing: disposal is
+    not a change, the value logged for it stands, and a later run reads 0 for it (the harness's
+    reading of try_get() = None).  The node read must itself not have been disposed.) *)
 Theorem C01_read_consistent :
   forall p, wf_prog p -> no_self_feed p ->
   forall ops n cm e s' v,
-  wf_ops p ops -> decl_of p n = DMemo cm e ->
+  wf_ops p ops -> decl_of p n = DMemo cm e -> dead p (run_fixed p ops) n = false ->
   read_top p n (run_fixed p ops) = (s', v) ->
   cache (getn s' n) = Some v /\
   replay_body p n e (rlog (getn s' n)) = Some v /\
@@ -54,14 +58,16 @@ Theorem C01_read_consistent :
 Proof. exact read_consistent. Qed.
 Print Assumptions C01_read_consistent.
 
-(** [read_eq_spec]: when no memo / derived body reads through untrack or get_untracked and every
-    memo compares with equality or always-changed ([exact_prog]), the value read is the
+(** [read_eq_spec]: when no memo / derived body reads through untrack or get_untracked, every
+    memo compares with equality or always-changed ([exact_prog]) and no source has been
+    disposed, the value read is the
     denotational value of the node over the current signal values ([spec]: bodies evaluated
     recursively from the signals alone, no caches, no states), and the read changed no signal *)
 Theorem C01_read_eq_spec :
   forall p, wf_prog p -> no_self_feed p ->
   forall ops n s' v,
   uf_prog p -> exact_prog p -> wf_ops p ops -> n < length p -> memob p n = true ->
+  dead p (run_fixed p ops) n = false -> (forall i, dead p s' i = false) ->
   read_top p n (run_fixed p ops) = (s', v) ->
   spec p s' n = Some v /\ (forall i, sval (getn s' i) = sval (getn (run_fixed p ops) i)).
 Proof. exact read_eq_spec. Qed.
@@ -72,7 +78,7 @@ Print Assumptions C01_read_eq_spec.
 Theorem C01_read_leaves_cone_current :
   forall p, wf_prog p -> no_self_feed p ->
   forall ops n s' v,
-  wf_ops p ops -> n < length p -> effb p n = false ->
+  wf_ops p ops -> n < length p -> effb p n = false -> dead p (run_fixed p ops) n = false ->
   read_top p n (run_fixed p ops) = (s', v) ->
   Inv0 p s' /\
   (forall i, sval (getn s' i) = sval (getn (run_fixed p ops) i)) /\
@@ -83,7 +89,7 @@ Print Assumptions C01_read_leaves_cone_current.
 
 (** any Clean memo of any state satisfying the invariant holds its denotational value *)
 Theorem C01_clean_memo_eq_spec :
-  forall p s, Inv0 p s -> uf_prog p -> exact_prog p ->
+  forall p s, Inv0 p s -> uf_prog p -> exact_prog p -> (forall i, dead p s i = false) ->
   forall j, memob p j = true -> st (getn s j) = Clean ->
   exists v, cache (getn s j) = Some v /\ spec p s j = Some v.
 Proof. exact clean_memo_eq_spec. Qed.
@@ -93,21 +99,21 @@ Print Assumptions C01_clean_memo_eq_spec.
 Theorem C01_read_idempotent :
   forall p, wf_prog p -> no_self_feed p ->
   forall ops n s1 v1 s2 v2,
-  wf_ops p ops -> n < length p -> memob p n = true ->
+  wf_ops p ops -> n < length p -> memob p n = true -> dead p (run_fixed p ops) n = false ->
   read_top p n (run_fixed p ops) = (s1, v1) -> read_top p n s1 = (s2, v2) -> v2 = v1.
 Proof. exact read_idempotent. Qed.
 Print Assumptions C01_read_idempotent.
 
 (** state-based forms: any state satisfying the invariant (reachable or not) *)
 Theorem C01_write_preserves_invariant :
-  forall p j v s, Inv0 p s -> sigb p j = true ->
+  forall p j v s, Inv0 p s -> sigb p j = true -> dead p s j = false ->
   Inv0 p (notify_sig p j (updn j (fun n => set_sval n v) s)).
 Proof. exact Inv_notify. Qed.
 Print Assumptions C01_write_preserves_invariant.
 
 Theorem C01_read_preserves_invariant_and_cleans :
   forall p, wf_prog p -> forall n s s' v,
-  Inv0 p s -> n < length p -> effb p n = false ->
+  Inv0 p s -> n < length p -> effb p n = false -> dead p s n = false ->
   read_top p n s = (s', v) ->
   Inv0 p s' /\ PullRel p (S n) [] None s s' /\
   (memob p n = true -> st (getn s' n) = Clean /\ cache (getn s' n) = Some v) /\
